@@ -217,3 +217,93 @@ func calleeDesc(c *ssa.CallCommon) string {
 	}
 	return "a function value"
 }
+
+// mayWriteSliceParams: can the library function fn (with its closures) write the elements of a slice it receives as a
+// parameter? Conservative syntactic answer used by the executor to keep the contents of a slice across a call of a
+// library function: true unless every use of every parameter-derived slice value is a read (index load, range, len,
+// cap, re-slice, source of append/copy, being captured, being stored in a cell) or a hand-over to Just/Of (which only
+// read it).
+var mayWriteMemo = map[*ssa.Function]bool{}
+
+func mayWriteSliceParams(fn *ssa.Function) bool {
+	if v, ok := mayWriteMemo[fn]; ok {
+		return v
+	}
+	mayWriteMemo[fn] = true // recursion guard: assume the worst
+	res := false
+	for _, f := range closureTree(fn) {
+		for _, b := range f.Blocks {
+			for _, ins := range b.Instrs {
+				switch t := ins.(type) {
+				case *ssa.Store:
+					if ia, ok := t.Addr.(*ssa.IndexAddr); ok {
+						if d, _ := inputDerivedOrCaptured(ia.X, 0); d {
+							res = true
+						}
+					}
+				case *ssa.Call:
+					c := t.Common()
+					if bi, ok := c.Value.(*ssa.Builtin); ok {
+						switch bi.Name() {
+						case "append":
+							if d, _ := inputDerivedOrCaptured(c.Args[0], 0); d {
+								if sl, ok := c.Args[0].(*ssa.Slice); !ok || sl.Max == nil {
+									res = true
+								}
+							}
+						case "copy":
+							if d, _ := inputDerivedOrCaptured(c.Args[0], 0); d {
+								res = true
+							}
+						}
+						continue
+					}
+					for _, a := range c.Args {
+						if _, isSl := a.Type().Underlying().(*types.Slice); !isSl {
+							continue
+						}
+						if d, _ := inputDerivedOrCaptured(a, 0); !d {
+							continue
+						}
+						callee := c.StaticCallee()
+						if callee != nil && callee.Origin() != nil {
+							callee = callee.Origin()
+						}
+						if callee != nil && callee.Pkg != nil && isRoPkg(callee.Pkg.Pkg.Path()) && callee.Blocks != nil && !mayWriteSliceParams(callee) {
+							continue
+						}
+						res = true
+					}
+				}
+			}
+		}
+	}
+	mayWriteMemo[fn] = res
+	return res
+}
+
+// inputDerivedOrCaptured: v is (a re-slice of) a slice parameter, possibly read back from the cell a closure captured it in.
+func inputDerivedOrCaptured(v ssa.Value, depth int) (bool, string) {
+	if depth > 8 {
+		return false, ""
+	}
+	if d, n := inputDerived(v, depth); d {
+		return d, n
+	}
+	switch t := v.(type) {
+	case *ssa.UnOp:
+		if fv, ok := t.X.(*ssa.FreeVar); ok {
+			// a captured cell: conservatively treat cells of slice type named after a parameter of the enclosing functions as inputs
+			for p := fv.Parent().Parent(); p != nil; p = p.Parent() {
+				for _, prm := range p.Params {
+					if prm.Name() == fv.Name() {
+						return true, prm.Name()
+					}
+				}
+			}
+		}
+	case *ssa.Slice:
+		return inputDerivedOrCaptured(t.X, depth+1)
+	}
+	return false, ""
+}
